@@ -214,6 +214,8 @@ fn set_default_delay_plan(seed: u64) {
     let mut points = std::collections::BTreeMap::new();
     points.insert("pool::before_reorg_lock", (250u64, 2_500u64));
     points.insert("assembler::after_prepare_uncles", (300u64, 2_000u64));
+    // hook H4c: a small share of all snapshot loads (submissions, template updates, reorg handling)
+    points.insert("shared::after_snapshot_load", (20u64, 150u64));
     hooks::set_plan(hooks::DelayPlan { points, seed });
 }
 
@@ -284,6 +286,7 @@ pub fn run(args: &Args) -> i32 {
         let mut points = std::collections::BTreeMap::new();
         points.insert("pool::before_reorg_lock", (250u64, 2_500u64));
         points.insert("assembler::after_prepare_uncles", (300u64, 2_000u64));
+        points.insert("shared::after_snapshot_load", (20u64, 150u64));
         hooks::set_plan(hooks::DelayPlan { points, seed: args.seed ^ 0x9e37 });
     }
     let mk = |id: &str, rule: &str| Report::new(id, "exploration", args, rule);
